@@ -10,10 +10,15 @@ import z3
 from . import prelude
 
 
-def _mk_solver(mbqi: bool, timeout_ms: int, rlimit: int | None):
+def _mk_solver(mbqi, timeout_ms: int, rlimit: int | None):
     s = z3.Solver()
     s.set("auto_config", False)
-    s.set("mbqi", mbqi)
+    if mbqi == "split":
+        # second configuration of the portfolio: same E-matching-only proving, different case-split heuristic
+        s.set("mbqi", False)
+        s.set("case_split", 3)
+    else:
+        s.set("mbqi", bool(mbqi))
     s.set("timeout", timeout_ms)
     if rlimit:
         s.set("rlimit", rlimit)
@@ -126,6 +131,19 @@ def discharge(E, obligations, jobs=16, timeout_ms=20000, rlimit=None, use_cvc5=T
                 r.reason = reason
                 continue
             retry.append((ob, task, out, reason))
+        # portfolio: a second z3 configuration (in parallel) for what the first left open
+        if retry:
+            t2 = [(task[0], timeout_ms, rlimit, "split", False) for _ob, task, _o, _r in retry]
+            outs2 = list(ex.map(_solve_text, t2, chunksize=1))
+            still = []
+            for (ob, task, out, reason), (o2, dt2, _m, r2) in zip(retry, outs2):
+                r = results[ob.name]
+                r.time += dt2
+                if o2 == "unsat":
+                    r.backends.add("z3-split")
+                else:
+                    still.append((ob, task, out, reason))
+            retry = still
         # second back end for what z3 left open
         rank = {"discharged": 0, "error": 1, "open": 2, "refuted": 3, "vacuous": 4}
         for ob, task, out, reason in retry:
